@@ -5,6 +5,7 @@ package main
 
 import (
 	"fmt"
+	"go/token"
 	"go/types"
 	"strings"
 
@@ -240,6 +241,16 @@ func c03r2(c *Ctx) {
 				if hasAcct && key != nil && key.Prefix == want+r1+r2 && len(key.Parts) == 1 && key.Parts[0] == tok {
 					listOK = "list read by " + sc.Name() + "(" + acct + ", " + key.String() + ")"
 					listTerm = e.Term(call) + "#0"
+					// "currently holds": what is searched is decoded in this call — every list the reader hands out is an object
+					// it allocated itself, never one kept across calls on the handler (the set-role function appends to the
+					// object it reads: a remembered list grows roles its account never received)
+					if fresh, why := freshResult(c.P, sc, 0, 0); fresh {
+						c.OK(rule, FuncName(fn), "role list is decoded afresh", c.P.InstrPos(call), "every list "+sc.Name()+" returns is allocated by it")
+					} else {
+						c.FailX(Oblig{Rule: rule, Func: FuncName(fn), Construct: "role list is decoded afresh", Pos: c.P.InstrPos(call), Kind: "violation",
+							Detail:   "the role list the check searches can be an object that outlives the call (" + why + "): a list remembered on the handler is shared with whoever read it before — a later set-role on another account or token adds roles to it that this account never received",
+							Expected: "a list allocated and decoded from the account's stored bytes in this call"})
+					}
 				}
 			}
 		}
@@ -269,6 +280,62 @@ func c03r2(c *Ctx) {
 			}
 		}
 	}
+}
+
+// freshResult: every value fn returns at result position idx is nil or an object allocated below fn in that call.
+func freshResult(p *Prog, fn *ssa.Function, idx, depth int) (bool, string) {
+	if fn == nil || len(fn.Blocks) == 0 || depth > 3 {
+		return false, "a result that cannot be followed"
+	}
+	var judge func(v ssa.Value, seen map[ssa.Value]bool) (bool, string)
+	judge = func(v ssa.Value, seen map[ssa.Value]bool) (bool, string) {
+		if seen[v] {
+			return true, ""
+		}
+		seen[v] = true
+		switch x := v.(type) {
+		case *ssa.Const:
+			return x.Value == nil, "a constant"
+		case *ssa.Alloc:
+			return true, ""
+		case *ssa.Phi:
+			for _, ed := range x.Edges {
+				if ok, why := judge(ed, seen); !ok {
+					return false, why
+				}
+			}
+			return true, ""
+		case *ssa.ChangeType:
+			return judge(x.X, seen)
+		case *ssa.Call:
+			if sc := x.Call.StaticCallee(); sc != nil && sc.Pkg != nil && strings.HasPrefix(sc.Pkg.Pkg.Path(), modPath) && x.Call.Signature().Results().Len() == 1 {
+				return freshResult(p, sc, 0, depth+1)
+			}
+		case *ssa.Extract:
+			if call, ok := x.Tuple.(*ssa.Call); ok {
+				if sc := call.Call.StaticCallee(); sc != nil && sc.Pkg != nil && strings.HasPrefix(sc.Pkg.Pkg.Path(), modPath) {
+					return freshResult(p, sc, x.Index, depth+1)
+				}
+			}
+		case *ssa.UnOp:
+			if x.Op == token.MUL {
+				if f := forwarded(x); f != nil {
+					return judge(f, seen)
+				}
+				return false, "loaded from " + p.Env(fn).Term(x.X) + " at " + p.InstrPos(x)
+			}
+		}
+		return false, p.Env(fn).Term(v) + " in " + fn.Name()
+	}
+	for _, r := range returnsOf(fn) {
+		if idx >= len(r.Results) {
+			return false, "result shape"
+		}
+		if ok, why := judge(retval(r, idx), map[ssa.Value]bool{}); !ok {
+			return false, why
+		}
+	}
+	return true, ""
 }
 
 func pathAvoidingPred(e *Env, target *ssa.BasicBlock, pred func(Fact) bool) []string {
